@@ -2,8 +2,8 @@
 CONFIG = dict(
     props=["DhcpProofs.Props.C15"],
     facts=["DhcpProofs.Facts.V4Build"],
-    streams=[("v4build", 12000, 150000)],
-    oracles=[("c15", 12000, 150000)],
+    streams=[("v4build", 12000, 600000)],
+    oracles=[("c15", 12000, 600000)],
     full_statement_proved=False,
     missing=("One clause is false of the model and of the code at one corner and is kept as "
              "C15_request_from_offer_full with C15_request_from_offer_counterexample: for a hand-built offer whose "
